@@ -22,11 +22,17 @@ for m in cat:
 for d in sorted((ROOT / "seeded").glob("*/meta.json")):
     meta = json.loads(d.read_text())
     r = res.get((d.parent.name, meta["property"]))
-    rows.append((d.parent.name, meta["property"], "independent sub-agent change; needs: " + meta["needs_to_manifest"], meta.get("expect", "violation"), r))
+    if meta.get("expect") == "clean":
+        what = "behaviour-preserving refactoring by an independent sub-agent (no-alarm control; also run against every other check by selftest/benign_all.py)"
+    else:
+        what = "independent sub-agent change; needs: " + meta.get("needs_to_manifest", "").replace("|", "/").replace("\n", " ")
+    if meta.get("stale_since"):
+        what += " [stale: " + meta["stale_since"][:90] + "...]"
+    rows.append((d.parent.name, meta["property"], what, meta.get("expect", "violation"), r))
 out = ["| change | property / check | what it is | expected | result | clauses reporting it |", "|---|---|---|---|---|---|"]
 for cid, prop, what, expect, r in rows:
     if r is None:
-        out.append(f"| {cid} | {prop} | {what} | {expect} | (not run) | |")
+        out.append(f"| {cid} | {prop} | {what} | {expect} | (not run: stale) | |")
     else:
         out.append(f"| {cid} | {prop} | {what} | {expect} | {r['got']} {'OK' if r['ok'] else '**MISS**'} | {r['clauses']} |")
 text = "\n".join(out)
